@@ -41,8 +41,18 @@ def main():
     for m in sorted(glob.glob(os.path.join(root, "seeded/*/meta.json"))):
         meta = json.load(open(m))
         items.append((meta["property"], os.path.join(os.path.dirname(m), "patch.diff"), None))
+    checked = {}
     for prop, d, exp in items:
         if want and prop not in want:
+            continue
+        if prop not in checked:
+            # a mutant only counts as caught if the unchanged tree is clean for this property
+            r = subprocess.run([os.path.join(root, "bin/govc"), "check", "--property", prop, "--no-evidence"], capture_output=True, text=True, cwd=root)
+            checked[prop] = r.returncode
+            if r.returncode != 0:
+                print(f"{prop}: BASELINE NOT CLEAN (exit {r.returncode}) - mutant results for it are meaningless")
+                bad += 1
+        if checked[prop] != 0:
             continue
         res = run_mutant(prop, d, exp)
         ok = res.startswith("caught")
